@@ -391,7 +391,15 @@ func genCLICase(t *rapid.T) *CLICase {
 	var p *protogen.Plant
 	plantedMods := map[string]bool{}
 	if kind == "plant" {
-		if p = protogen.NewEditor(t).ApplyPlant(ws); p != nil {
+		ed := protogen.NewEditor(t)
+		// the option-governed rpc violations get their own share: the rpc_allow_* keys matter only for them
+		if rapid.IntRange(0, 3).Draw(t, "option-governed-plant") == 0 {
+			p = ed.ApplyPlantNamed(ws, []string{"rpc-empty", "rpc-empty", "rpc-same-request-response"}[rapid.IntRange(0, 2).Draw(t, "which-governed")])
+		}
+		if p == nil {
+			p = ed.ApplyPlant(ws)
+		}
+		if p != nil {
 			rw := ws.Render()
 			for _, id := range p.Sites {
 				if f, m := ws.FileByPath(siteFile(ws, rw, id)); f != nil {
